@@ -29,7 +29,6 @@ KindOf(k) == [t |-> k.t, c |-> k.c, m |-> k.m, to |-> k.to, ch |-> TreeOf(k.ch)]
 TreeOf(a) == { [n |-> a[i].n, k |-> KindOf(a[i].k)] : i \in 1..Len(a) }
 
 NodeOf(v) == [t |-> v.t, c |-> v.c, x |-> v.x, to |-> v.to]
-MapOf(a) == [p \in {a[i][1] : i \in 1..Len(a)} |-> NodeOf((CHOOSE i \in 1..Len(a) : a[i][1] = p) = 0)]
 PairsToFun(a) == [p \in {a[i][1] : i \in 1..Len(a)} |-> NodeOf(a[CHOOSE i \in 1..Len(a) : a[i][1] = p][2])]
 FsOf(a) == LET m == PairsToFun(a) IN [p \in DOMAIN m \cup {<<>>} |-> IF p = <<>> THEN DirN ELSE m[p]]
 IdxOf(a) == IF Len(a) = 0 THEN EmptyIdx ELSE PairsToFun(a)
@@ -58,6 +57,9 @@ Generic(e) ==
     /\ n' = n + 1
     /\ UNCHANGED <<prot, esc>>
 
+\* outside the modelled domain (the real step is still executed and judged by the property clauses)
+Unmodelled(e) == e.op = "RH" /\ ~IdxSane(idx)
+
 \* first property clause that fails in the state just reached
 Clause ==
     IF Protected(fs') # Protected(InitFS) THEN "Confined"
@@ -69,7 +71,7 @@ Consume ==
     /\ LET e == Steps[l] IN
          IF ENABLED Strict(e)
          THEN Strict(e) /\ driftAt' = driftAt
-         ELSE Generic(e) /\ driftAt' = IF driftAt = 0 THEN l ELSE driftAt
+         ELSE Generic(e) /\ driftAt' = IF driftAt = 0 /\ ~Unmodelled(e) THEN l ELSE driftAt
     /\ l' = l + 1
     /\ LET c == Clause IN
          /\ verdict' = IF verdict = "ok" THEN c ELSE verdict
